@@ -706,6 +706,7 @@ class StateRun(object):
         tor.info['process/pid'] = lambda: '4242'
         tor.info['version'] = lambda: tor.version
         tor.verbs['ATTACHSTREAM'] = self.cmd_attachstream
+        tor.verbs['EXTENDCIRCUIT'] = self.cmd_extendcircuit
         tor.verbs['CLOSECIRCUIT'] = self.cmd_closecircuit
         tor.verbs['CLOSESTREAM'] = self.cmd_closestream
         tor.add_option('__LeaveStreamsUnattached', 'Boolean', ['0'])
@@ -897,13 +898,18 @@ class StateRun(object):
             rc = st.circuits[cid]
             if mc.real is not rc:
                 sim.fail(P + '.circuit-object-replaced', 'circuit %d is a different object than when it first appeared' % cid)
-            if rc.id != cid or rc.state != mc.state:
+            if rc.state == 'EXTENDED' and mc.state == 'LAUNCHED' and cid in self.built_by_app:
+                pass        # build_circuit() notes Tor's "250 EXTENDED <id>" answer on the circuit (until the next CIRC event)
+            elif rc.id != cid or rc.state != mc.state:
                 sim.fail(P + '.circuit-status', 'circuit %d: state %r, Tor last said %r' % (cid, rc.state, mc.state))
             if rc.purpose != mc.purpose:
                 sim.fail(P + '.circuit-purpose', 'circuit %d: purpose %r, Tor last said %r' % (cid, rc.purpose, mc.purpose))
             if list(rc.build_flags) != mc.build_flags:
                 sim.fail(P + '.circuit-build-flags', 'circuit %d: build_flags %r, Tor said %r' % (cid, rc.build_flags, mc.build_flags))
-            if dict(rc.flags) != mc.flags:
+            if dict(rc.flags) != mc.flags and not (rc.state == 'EXTENDED' and mc.state == 'LAUNCHED' and cid in self.built_by_app
+                                                   and not rc.flags):
+                # (build_circuit() applies Tor's keyword-less "250 EXTENDED <id>" answer like an event: status EXTENDED and no
+                # keywords until the next CIRC event; Appendix A.4)
                 sim.fail(P + '.circuit-flags', 'circuit %d: flags %r, last event had %r' % (cid, rc.flags, mc.flags))
             got = [r.id_hex for r in rc.path]
             if got != mc.path:
@@ -967,7 +973,31 @@ class StateRun(object):
             acts.append((1, 'unrelated-cmd', self.op_unrelated))
         if self.boot and self.app_closes_left > 0 and (self.model.circs or self.model.streams):
             acts.append((1, 'app-close', self.op_app_close))
+        if self.boot and self.builds_left > 0 and self.events_left > 0 and self.heard_by_state() and \
+                len(self.circs) < self.P.get('max_circuits', 5):
+            acts.append((1, 'app-build-circuit', self.op_build_circuit))
         return acts
+
+    def op_build_circuit(self):
+        """the application asks Tor for a circuit (TorState.build_circuit(): EXTENDCIRCUIT 0). Tor announces the new
+        circuit with a CIRC event before it answers the command; it is the one circuit the event and the answer speak of"""
+        self.builds_left -= 1
+        self.sim.probe('app-build-circuit')
+        self.sim.log('app-build-circuit')
+        d = self.state.build_circuit()
+        d.addErrback(lambda f: None)
+
+    def cmd_extendcircuit(self, rest):
+        tok = rest.split()
+        if not tok or tok[0] != '0' or self.tor.gone:
+            return err(552, 'Unknown circuit "%s"' % (tok[0] if tok else ''))
+        before = set(self.circs)
+        self.w_circ_launch()
+        new = sorted(set(self.circs) - before)
+        if len(new) != 1:
+            raise HarnessError('EXTENDCIRCUIT 0 did not create exactly one circuit')
+        self.built_by_app.add(new[0])
+        return Reply(250, [], 'EXTENDED %d' % new[0])
 
     def op_app_close(self):
         """C07: the application asks for a circuit or stream to be closed (Tor may refuse); whatever comes of it,
@@ -1014,6 +1044,8 @@ class StateRun(object):
         self.close_refusals_left = ch.draw(3, 'closerefusals') if self.prop in ('C07', 'C08') else 0
         self.consensus_left = ch.draw(3, 'nconsensus') if self.prop in ('C07', 'C08') else 0
         self.addrmap_left = ch.draw(4, 'naddrmap') if self.prop == 'C07' else 0
+        self.builds_left = ch.draw(3, 'nbuilds') if self.prop in ('C07', 'C08') else 0
+        self.built_by_app = set()
         self.app_closes_left = ch.draw(4, 'appcloses') if self.prop == 'C07' else 0
         self.refused_closes = set()
         self.make_relays()
